@@ -23,7 +23,14 @@ fn main() {
             let out = arg(&args, "--out");
             let replay_dir = arg(&args, "--replay-dir").unwrap_or("/verif/replays");
             let known: Vec<String> = arg(&args, "--known").map(|s| s.split(',').filter(|x| !x.is_empty()).map(|x| x.to_string()).collect()).unwrap_or_default();
-            let sum = run_prop(&spec, cases, seed, replay_dir, &known);
+            let engine = arg(&args, "--engine").unwrap_or("seq");
+            let sum = match engine {
+                "seq" => run_prop(&spec, cases, seed, replay_dir, &known),
+                other => {
+                    eprintln!("unknown engine {other}");
+                    exit(2)
+                }
+            };
             let js = serde_json::to_string(&sum).unwrap();
             match out {
                 Some(p) => std::fs::write(p, js).unwrap(),
